@@ -850,9 +850,42 @@ impl Graph {
         // Note that we only hold the plan lock while creating the plan,
         // not while executing the model.
         let mut cached_plan = self.cached_plan.lock().unwrap();
+        #[cfg(rten_verif)]
+        let verif_hit = matches!(cached_plan.as_ref(), Some(plan) if plan.matches(inputs, outputs));
+        #[cfg(rten_verif)]
+        let verif_event = |plan: Option<&[NodeId]>| {
+            // Emitted while the plan cache mutex is held.
+            let ids = |ids: &[NodeId]| {
+                let v: Vec<String> = ids.iter().map(|id| id.as_u32().to_string()).collect();
+                format!("[{}]", v.join(","))
+            };
+            rten_base::verif::emit(|| {
+                format!(
+                    r#"{{"ev":"plan_cache","hit":{},"subgraph":{},"ins":{},"outs":{},"ok":{},"plan":{}}}"#,
+                    verif_hit,
+                    is_subgraph,
+                    ids(inputs),
+                    ids(outputs),
+                    plan.is_some(),
+                    ids(plan.unwrap_or(&[]))
+                )
+            });
+        };
         let plan = match cached_plan.as_ref() {
             Some(plan) if plan.matches(inputs, outputs) => plan.clone(),
             _ => {
+                #[cfg(rten_verif)]
+                let plan = self
+                    .create_plan(
+                        inputs,
+                        outputs,
+                        PlanOptions {
+                            allow_missing_inputs: false,
+                            captures_available: is_subgraph,
+                        },
+                    )
+                    .inspect_err(|_| verif_event(None));
+                #[cfg(not(rten_verif))]
                 let plan = self.create_plan(
                     inputs,
                     outputs,
@@ -860,11 +893,14 @@ impl Graph {
                         allow_missing_inputs: false,
                         captures_available: is_subgraph,
                     },
-                )?;
+                );
+                let plan = plan?;
                 *cached_plan = Some(Arc::new(CachedPlan::new(inputs, outputs, plan)));
                 cached_plan.clone().unwrap()
             }
         };
+        #[cfg(rten_verif)]
+        verif_event(Some(plan.plan()));
         Ok(plan)
     }
 
